@@ -87,7 +87,7 @@ pub fn gen_dp_query(r: &mut Rng, w: &DpWorld) -> DpQuery {
     let mut feats: Vec<&'static str> = vec![];
     let users = w.cat.table("users").unwrap();
     let city_public = users.cols[users.col("city").unwrap()].finite_values();
-    let shape = r.below(21);
+    let shape = r.below(22);
     let (from, num_cols, keys): (String, Vec<(&str, bool)>, Vec<(&str, bool)>) = match shape {
         0 | 1 | 2 => (
             "orders".into(),
@@ -195,6 +195,14 @@ pub fn gen_dp_query(r: &mut Rng, w: &DpWorld) -> DpQuery {
                 vec![("status", true)],
             )
         }
+        21 => {
+            feats.push("cross_join_protected");
+            (
+                "users AS u CROSS JOIN orders AS o".into(),
+                vec![("o.amount", true), ("u.age", true)],
+                vec![("o.status", true), ("u.tier", true)],
+            )
+        }
         10 => {
             feats.push("derived");
             (
@@ -264,7 +272,15 @@ pub fn gen_dp_query(r: &mut Rng, w: &DpWorld) -> DpQuery {
 /// Queries for privacy-unit-preserving rewriting (no final aggregation required)
 pub fn gen_pup_query(r: &mut Rng, _w: &DpWorld) -> DpQuery {
     let mut feats: Vec<&'static str> = vec![];
-    let sql = match r.below(24) {
+    let sql = match r.below(26) {
+        24 => {
+            feats.push("cross_join_pup_pup");
+            "SELECT a.id AS aid, b.id AS bid, b.amount AS amount FROM users AS a CROSS JOIN orders AS b".to_string()
+        }
+        25 => {
+            feats.push("cross_join_pup_pup");
+            "SELECT a.id AS aid, b.id AS bid FROM orders AS a CROSS JOIN orders AS b".to_string()
+        }
         21 => {
             feats.push("direct_nonunique_unit");
             "SELECT uid, city, x FROM visits".to_string()
